@@ -21,6 +21,31 @@ MAIN_POINTS = ["barrier.before", "barrier.after", "vfs_write.before", "vfs_write
                "vfs_write.released", "update_diagnostics", "spawn"]
 
 
+# async-lsp's ConcurrencyLayer::default() admits available_parallelism requests at a time, and its main loop stalls
+# for good when one more arrives (reported finding, key async-lsp-concurrency-limit): sessions keep fewer in flight.
+try:
+    _NCPU = len(os.sched_getaffinity(0))
+except Exception:          # noqa
+    _NCPU = os.cpu_count() or 1
+MAX_IN_FLIGHT = max(1, min(8, _NCPU - 2))
+
+
+def cap_in_flight(steps, limit=None):
+    """inserts {"wait_idle": true} so that at most `limit` requests are outstanding"""
+    limit = limit or MAX_IN_FLIGHT
+    out, n = [], 0
+    for st in steps:
+        if "request" in st:
+            if n >= limit:
+                out.append({"wait_idle": True})
+                n = 0
+            n += 1
+        elif "wait_idle" in st:
+            n = 0
+        out.append(st)
+    return out
+
+
 # ------------------------------------------------------------------------------------------------ sessions
 
 def run_session(bindir, script, extra_s=15):
